@@ -13,7 +13,10 @@ use dicom_ul::{
 use snafu::{OptionExt, Report, ResultExt, Whatever};
 use tracing::{debug, info, warn};
 
-use crate::{App, create_cecho_response, create_cstore_response, transfer::ABSTRACT_SYNTAXES};
+use crate::{
+    App, create_cecho_response, create_cstore_response, instance_file_name,
+    transfer::ABSTRACT_SYNTAXES,
+};
 pub async fn run_store_async(
     scu_stream: tokio::net::TcpStream,
     args: &App,
@@ -263,9 +266,7 @@ where
 
                                 // write the files to the current directory with their SOPInstanceUID as filenames
                                 let mut file_path = out_dir.to_path_buf();
-                                file_path.push(
-                                    sop_instance_uid.trim_end_matches('\0').to_string() + ".dcm",
-                                );
+                                file_path.push(instance_file_name(&sop_instance_uid));
                                 file_obj
                                     .write_to_file(&file_path)
                                     .whatever_context("could not save DICOM object to file")?;
